@@ -24,23 +24,24 @@
       and have the sizes [sz] says;
     - [ArtsDist A]: distinct artifacts have distinct type names and vice versa
       (what compareReferenceType needs: finding D6);
-    - [PositiveCode l]: every reference of every actor code has at least one byte;
+    - [std_refs sz s], [arts_in A s]: the same conditions for a single list of
+      references (the file references of the final-coverage validator);
+    - [pointed r]: the reference has at least one byte;
     - [den s a m k] (C11): the list denotes (artifact a, address space m, address k);
     - [vap], [vfc], [vni]: ValidatorActorsAreProtected / FinalCoverageIsComplete /
       NoIssues; [vi_step], [vi_kind], [vi_refs] = StepIdx, kind, NonMeasured.
 
     Slice level (Model/ValidatorsHeap.v, Proofs/ValidatorsHeap.v): the validators
-    sort the range arrays they are given in place and append to them, and those
-    arrays belong to the log, which validator.All() / pcr0tool hand to one
-    validator after the other.
+    sort the range arrays they are given in place (and re-allocate before they
+    append), and those arrays belong to the log, which validator.All() / pcr0tool
+    hand to one validator after the other.
     - [heap]: the backing arrays; [sl]: a Go slice header (array, offset, len, cap);
       [rd h s]: what the slice reads as; a log step [hstep] holds, for every
       reference, the slice header of its Ranges; [windows l]: all of them;
     - [hvap h l], [hvfc h files l]: the two range validators run on the log [l] over
       the memory [h]: (memory afterwards, issues);
     - [WFheap h W]: every slice lies inside its array and two slices are the same
-      window or do not overlap (spare capacity may overlap anything);
-    - [NoSmallSpare W]: a slice with fewer than two ranges has cap = len;
+      window or do not overlap (spare capacity is arbitrary and may overlap anything);
     - [kept h0 W h]: arrays keep their lengths and every slice of [W] reads in [h]
       as a permutation of what it reads as in [h0]. *)
 From Coq Require Import Permutation.
@@ -59,14 +60,13 @@ Print Assumptions C10_model_uses_C11_algebra.
 (** An issue is reported for step i exactly when step i hands control to a new
     actor whose code is known and at least one byte of that code was not measured
     by strictly earlier steps — for all logs of the universe: overlapping,
-    adjacent, duplicated, partially covering ranges, offsets and physical
-    addresses mixed, same-step measurements, re-entered actors.
+    adjacent, duplicated, partially covering ranges, zero-length ranges and code
+    references without ranges, offsets and physical addresses mixed, same-step
+    measurements, re-entered actors.
     PARTIAL: needs [ArtsDist] (two artifacts of one type, e.g. two RawBytes, are
-    confused by compareReferenceType: [C10_actor_iff_refuted]) and [PositiveCode]
-    (a code reference without bytes is reported when nothing of its artifact was
-    measured: [C10_actor_empty_code_refuted]). *)
+    confused by compareReferenceType: [C10_actor_iff_refuted]). *)
 Theorem C10_actor_iff_partial : forall sz A l out,
-  ArtsDist A -> WFlog sz A l -> PositiveCode l -> vap l = Ok out ->
+  ArtsDist A -> WFlog sz A l -> vap l = Ok out ->
   forall i, (exists v, In v out /\ vi_step v = Z.of_nat i) <->
     (exists st a code, takes_over l i st a /\ s_code st = Some code /\ exists x j, unprot sz l i code x j).
 Proof. exact actor_iff. Qed.
@@ -76,7 +76,7 @@ Print Assumptions C10_actor_iff_partial.
     new actor with known code takes over, and its NonMeasured references denote
     (as image offsets, no mapper left) exactly the unprotected bytes.  PARTIAL: as above. *)
 Theorem C10_actor_reports_exact_ranges_partial : forall sz A l out,
-  ArtsDist A -> WFlog sz A l -> PositiveCode l -> vap l = Ok out ->
+  ArtsDist A -> WFlog sz A l -> vap l = Ok out ->
   forall v, In v out -> exists i st a code,
     vi_step v = Z.of_nat i /\ vi_kind v = 4 /\ takes_over l i st a /\ s_code st = Some code /\
     (forall x m j, den (vi_refs v) x m j <-> m = MNil /\ unprot sz l i code x j) /\
@@ -88,55 +88,64 @@ Print Assumptions C10_actor_reports_exact_ranges_partial.
     bytes 0..16 of RawBytes artifact 2 are measured, an actor living in bytes 0..16
     of RawBytes artifact 1 takes over, no issue. *)
 Theorem C10_actor_iff_refuted : exists sz A l out i,
-  WFlog sz A l /\ PositiveCode l /\ vap l = Ok out /\
+  WFlog sz A l /\ vap l = Ok out /\
   (exists st a code, takes_over l i st a /\ s_code st = Some code /\ exists x j, unprot sz l i code x j) /\
   ~ (exists v, In v out /\ vi_step v = Z.of_nat i).
 Proof. exact actor_iff_refuted. Qed.
 Print Assumptions C10_actor_iff_refuted.
 
-(** Without [PositiveCode] it fails in the other direction (finding
-    C10-empty-code-range): the code is the zero-length range 5:5, nothing was
-    measured, an issue is reported although no byte is unprotected. *)
-Theorem C10_actor_empty_code_refuted : exists sz A l out i,
-  ArtsDist A /\ WFlog sz A l /\ vap l = Ok out /\
-  (exists v, In v out /\ vi_step v = Z.of_nat i) /\
-  ~ (exists st a code, takes_over l i st a /\ s_code st = Some code /\ exists x j, unprot sz l i code x j).
-Proof. exact actor_empty_code_refuted. Qed.
-Print Assumptions C10_actor_empty_code_refuted.
+(** An actor without a single code byte (the zero-length range 5:5; a reference
+    without ranges) is inside the universe of the two theorems above and is not
+    reported, whether or not anything of its artifact was measured before (the
+    inputs of the former finding C10-empty-code-range). *)
+Example C10_ex_actor_empty_code :
+  ArtsDist [ximg] /\ WFlog xsz64 [ximg] empty_code_log /\ WFlog xsz64 [ximg] empty_code_log2 /\
+  vap empty_code_log = Ok [] /\ vap empty_code_log2 = Ok [].
+Proof.
+  exact (conj (proj1 empty_code_hyps) (conj (proj1 (proj2 empty_code_hyps)) (conj (proj2 (proj2 empty_code_hyps)) empty_code_vap))).
+Qed.
 
 (** ** Final coverage *)
 
-(** [files] = the references UEFIFiles(PE32|PIC|TE) returned.  The validator
-    reports nothing iff every file byte was measured by some step of the run, and
-    otherwise exactly one issue at the last step whose NonMeasured is the
-    resolution of a list denoting exactly files \ measured.
-    PARTIAL: the difference is taken on UNRESOLVED references, so it is exact only
-    under C11's [Distinguishable] (distinct artifacts <-> distinct type names and
-    ONE address space per artifact); files are given by physical addresses, so
-    measurements of the image given as offsets do not count
-    ([C10_final_mixed_refuted]). *)
-Theorem C10_final_exact_partial : forall files l out,
-  Distinguishable (files ++ meas_upto l) -> NoOverflow (files ++ meas_upto l) -> Forall pointed files ->
+(** [files] = the references UEFIFiles(PE32|PIC|TE) returned (physical
+    addresses).  Both sides are resolved before the subtraction, so the verdict is
+    about BYTES of the artifacts, whatever address space a measurement was given
+    in: the validator reports nothing iff every file byte was measured by some step
+    of the run, and otherwise exactly one issue at the last step whose NonMeasured
+    (image offsets, no mapper left) denotes exactly files \ measured and whose
+    Measured denotes exactly the measured bytes.
+    PARTIAL: needs [ArtsDist] (finding C10-D6-foreign-artifact, as for the actors
+    validator).  [Forall pointed files]: UEFIFiles never returns a reference
+    without bytes (every file has its header); the validator tests the number of
+    remaining references. *)
+Theorem C10_final_exact_partial : forall sz A files l out,
+  ArtsDist A -> std_refs sz files -> arts_in A files -> Forall pointed files -> WFlog sz A l ->
   l <> [] -> vfc (Ok files) l = Ok out ->
   exists nm measured,
-    (forall a m k, den measured a m k <-> den (meas_upto l) a m k) /\
-    (forall a m k, den nm a m k <-> den files a m k /\ ~ den (meas_upto l) a m k) /\
-    (nm = [] <-> forall a m k, den files a m k -> den (meas_upto l) a m k) /\
+    (forall a m j, den measured a m j <-> m = MNil /\ covers sz (meas_upto l) a j) /\
+    (forall a m j, den nm a m j <-> m = MNil /\ covers sz files a j /\ ~ covers sz (meas_upto l) a j) /\
+    (nm = [] <-> forall a j, covers sz files a j -> covers sz (meas_upto l) a j) /\
     out = match nm with
           | [] => []
-          | _ => [mkVI (zlen l - 1) 6 (resolved nm) (resolved measured)]
+          | _ => [mkVI (zlen l - 1) 6 nm measured]
           end.
 Proof. exact final_exact. Qed.
 Print Assumptions C10_final_exact_partial.
 
-(** Finding C10-final-mixed-address-space: every byte of the file is covered (the
-    whole image was measured through an offset reference), an issue is reported. *)
-Theorem C10_final_mixed_refuted : exists sz A files l out,
-  std_refs sz files /\ WFlog sz A l /\ Forall pointed files /\
-  vfc (Ok files) l = Ok out /\ out <> [] /\
-  (forall a j, covers sz files a j -> covers sz (meas_upto l) a j).
-Proof. exact final_mixed_refuted. Qed.
-Print Assumptions C10_final_mixed_refuted.
+(** The inputs of the former finding C10-final-mixed-address-space are inside the
+    universe of the theorem: the file is given by physical addresses, the whole
+    image is measured through an offset reference (or half by offsets and half by
+    physical addresses): no issue; only bytes 0..16 measured: bytes 16..24 of the
+    file are reported. *)
+Example C10_ex_final_mixed :
+  ArtsDist [ximg] /\ std_refs xsz64 mixed_files /\ arts_in [ximg] mixed_files /\ Forall pointed mixed_files /\
+  WFlog xsz64 [ximg] mixed_log /\ WFlog xsz64 [ximg] mixed_log2 /\ WFlog xsz64 [ximg] mixed_log3 /\
+  vfc (Ok mixed_files) mixed_log = Ok [] /\ vfc (Ok mixed_files) mixed_log2 = Ok [] /\
+  vfc (Ok mixed_files) mixed_log3 = Ok [mkVI 0 6 [mkRef ximg MNil [mkR 16 8]] [mkRef ximg MNil [mkR 0 16]]].
+Proof.
+  destruct mixed_hyps as (H1 & H2 & H3 & H4 & H5 & H6 & H7). destruct mixed_vfc as (V1 & V2 & V3).
+  repeat (split; [assumption|]). assumption.
+Qed.
 
 (** empty log: nothing; UEFIFiles failed: one issue at the last step *)
 Theorem C10_final_degenerate : forall files c l out,
@@ -163,21 +172,18 @@ Print Assumptions C10_noissues_in.
 (** The verdicts are a function of the flow only if a validator leaves the log as
     it found it: the next validator of the chain, or a second pass, reads the same
     log.  Slice-level statement: the only writes to the memory behind the log are
-    in-place sorts of whole slices, so every slice keeps its ranges up to order.
-    It composes over any number of passes ([kept] is relative to the first memory
-    [h0], and [kept h0 W h0] holds).
-    PARTIAL: needs [NoSmallSpare]; a slice with fewer than two ranges and spare
-    capacity is not re-allocated by fiano's Ranges.SortAndMerge, and
-    References.SortAndMerge appends the next reference's ranges into its array
-    ([C10_validation_keeps_log_refuted], finding C10-shared-backing-append). *)
-Theorem C10_validation_keeps_log_partial : forall h0 l h files,
-  WFheap h0 (windows l) -> NoSmallSpare (windows l) -> kept h0 (windows l) h ->
+    in-place sorts of whole slices, so every slice keeps its ranges up to order --
+    for every memory layout: arbitrary spare capacities, slices of one array one
+    behind the other.  It composes over any number of passes ([kept] is relative
+    to the first memory [h0], and [kept h0 W h0] holds). *)
+Theorem C10_validation_keeps_log : forall h0 l h files,
+  WFheap h0 (windows l) -> kept h0 (windows l) h ->
   kept h0 (windows l) (fst (hvap h l)) /\ kept h0 (windows l) (fst (hvfc h files l)).
 Proof.
-  exact (fun h0 l h files WF N K =>
-    conj (vap_keeps h0 _ WF N h l K (incl_refl _)) (vfc_keeps h0 _ WF N h files l K (incl_refl _))).
+  exact (fun h0 l h files WF K =>
+    conj (vap_keeps h0 _ WF h l K (incl_refl _)) (vfc_keeps h0 _ WF h files l K (incl_refl _))).
 Qed.
-Print Assumptions C10_validation_keeps_log_partial.
+Print Assumptions C10_validation_keeps_log.
 
 (** what [kept] gives a reader of the log: every group of references (the measured
     references of a step, an actor's code) denotes the same bytes as before, and
@@ -194,25 +200,21 @@ Proof.
 Qed.
 Print Assumptions C10_kept_log_reads_the_same.
 
-(** Without [NoSmallSpare] (finding C10-shared-backing-append): a well-formed log
-    whose validation replaces a measured range by another one; the first pass
-    reports nothing, a second pass over the same log reports the actor of step 2
-    although its code was measured in step 0. *)
-Theorem C10_validation_keeps_log_refuted : exists h l,
-  WFheap h (windows l) /\
-  ~ kept h (windows l) (fst (hvap h l)) /\
-  snd (hvap h l) = Ok [] /\
-  exists v, snd (hvap (fst (hvap h l)) l) = Ok [v] /\ vi_step v = 2 /\ vi_kind v = 4.
-Proof. exact keeps_refuted. Qed.
-Print Assumptions C10_validation_keeps_log_refuted.
-
 (** the hypotheses are satisfiable by a log whose validation does write to memory
     (three ranges out of order in a slice with spare capacity: sorted in place,
     nothing else changes) *)
 Example C10_ex_keeps_hyps :
-  WFheap ok_heap (windows ok_log) /\ NoSmallSpare (windows ok_log) /\
+  WFheap ok_heap (windows ok_log) /\
   fst (hvap ok_heap ok_log) = [[]; [mkR 16 4; mkR 32 4; mkR 48 4; mkR 0 0]; [mkR 8 4]].
-Proof. exact (conj (proj1 ok_log_hyps) (conj (proj2 ok_log_hyps) ok_log_sorted)). Qed.
+Proof. exact (conj ok_log_hyps ok_log_sorted). Qed.
+
+(** ... and by the log of the former finding C10-shared-backing-append (a one-range
+    slice with a spare element, followed by another measurement): the memory is
+    left as it was, both validators say what they say on a first pass *)
+Example C10_ex_keeps_small_spare :
+  WFheap bad_heap (windows bad_log) /\
+  hvap bad_heap bad_log = (bad_heap, Ok []) /\ hvfc bad_heap (Err 1) bad_log = (bad_heap, Ok [mkVI 2 5 [] []]).
+Proof. exact (conj bad_log_wf bad_log_kept). Qed.
 
 (** ** The hypotheses are satisfiable by a non-trivial log (the D7 pattern) *)
 
@@ -220,7 +222,7 @@ Proof. exact (conj (proj1 ok_log_hyps) (conj (proj2 ok_log_hyps) ok_log_sorted))
     physical address), step 1 measures the new actor's code AND hands control to
     it, step 2 keeps the actor, step 3 enters an actor whose code was measured
     piecewise by steps 0 and 1 *)
-Example C10_ex_hyps : ArtsDist [ximg] /\ WFlog xsz64 [ximg] ex_log /\ PositiveCode ex_log.
+Example C10_ex_hyps : ArtsDist [ximg] /\ WFlog xsz64 [ximg] ex_log.
 Proof. exact ex_log_hyps. Qed.
 
 (** the same-step measurement does not protect the actor (what the D7 fix restored);
@@ -237,11 +239,12 @@ Proof. exact ex_log_vni. Qed.
 Example C10_ex_final :
   let files := [mkRef ximg MPhys [mkR (W32 - 64 + 8) 16]] in
   let l := [mkStep None None [mkRef ximg MPhys [mkR (W32 - 64 + 8) 8]] []; mkStep None None [] []] in
-  Distinguishable (files ++ meas_upto l) /\ NoOverflow (files ++ meas_upto l) /\ Forall pointed files /\
+  std_refs xsz64 files /\ arts_in [ximg] files /\ Forall pointed files /\ WFlog xsz64 [ximg] l /\
   vfc (Ok files) l = Ok [mkVI 1 6 [mkRef ximg MNil [mkR 16 8]] [mkRef ximg MNil [mkR 8 8]]].
 Proof.
-  cbv zeta. split; [apply distinguishableb_spec; vm_compute; reflexivity|].
-  split; [apply no_overflowb_spec; vm_compute; reflexivity|].
+  cbv zeta. split; [apply (wf_refsb_spec xsz64 [ximg]); vm_compute; reflexivity|].
+  split; [apply (wf_refsb_spec xsz64 [ximg]); vm_compute; reflexivity|].
   split; [constructor; [apply pointedb_spec; vm_compute; reflexivity | constructor]|].
+  split; [apply wf_logb_spec; vm_compute; reflexivity|].
   vm_compute. reflexivity.
 Qed.
